@@ -4,6 +4,7 @@ package main
 
 import (
 	"go/constant"
+	"go/types"
 	"sort"
 	"strings"
 
@@ -162,7 +163,22 @@ func projectionDerivedFrom(fn *ssa.Function, v ssa.Value, only *ssa.Parameter) b
 		case *ssa.TypeAssert:
 			merge(rec(x.X, d+1), false)
 		case *ssa.ChangeType:
-			merge(rec(x.X, d+1), false)
+			// a re-typing step: a value that was just found to be of a named type T (a type-switch arm) is converted to
+			// T's unnamed underlying type and handed on.  That can happen once per value — the converted value is not a
+			// T any more — so (size, is-a-T) still decreases lexicographically.
+			retype := false
+			src := x.X
+			if ex, ok := src.(*ssa.Extract); ok && ex.Index == 0 {
+				src = ex.Tuple
+			}
+			if ta, ok := src.(*ssa.TypeAssert); ok {
+				if nt, isNamed := ta.AssertedType.(*types.Named); isNamed {
+					if _, stillNamed := x.Type().(*types.Named); !stillNamed && types.Identical(nt.Underlying(), x.Type().Underlying()) {
+						retype = true
+					}
+				}
+			}
+			merge(rec(x.X, d+1), retype)
 		case *ssa.ChangeInterface:
 			merge(rec(x.X, d+1), false)
 		case *ssa.MakeInterface:
